@@ -56,6 +56,34 @@ func run(cfg lib.Cfg) error {
 		return out.Flush()
 	}
 	r := lib.NewRNG(cfg.Seed)
+	// corpus: two integrations with DIFFERENT log filters on one real jrpc2.Client, both with
+	// a cached header plan, reading the same segments; transactions emit logs for both in
+	// both index orders (Transfer and Created logs are mixed inside a transaction); each
+	// load order.  What one task attaches to the shared cached blocks must not make a log
+	// of the other disappear: each pair's rows = the rows it produces alone.
+	for v := 0; v < 4; v++ {
+		sc := &ts.Scenario{Name: fmt.Sprintf("corpus-shared-client-filters-%d", v), Seed: uint64(81 + v), Head: 8, SnapEvery: true, Real: true,
+			Gen:  ts.GenOpts{MaxTxs: 2, MaxLogs: 4, Created: true, Decoys: true, EmptyProb: 0},
+			Srcs: []ts.SrcSpec{{Name: "main", ChainID: 1, Batch: 3, Conc: 1 + v%2, URL: "http://main.invalid"}},
+			IGs: []ts.IGSpec{
+				{Name: "ig1", Shape: "log", Table: "t1", AddrFlt: v >= 2, Sources: []ts.SrcRef{{Name: "main", Start: 1}}},
+				{Name: "ig2", Shape: "created", Table: "t2", Hdr: true, Sources: []ts.SrcRef{{Name: "main", Start: 1}}},
+			}}
+		order := [][2]int{{2, 1}, {1, 2}}[v%2]
+		for k := 0; k < 5; k++ {
+			if k == 2 {
+				order = [2]int{order[1], order[0]} // the other load order for the later segments
+			}
+			if v >= 2 {
+				// statement-level: the second task loads while the first one's step is still open
+				sc.Acts = append(sc.Acts, ts.Act{Do: "advuntil", Tid: order[0], Call: "Commit"}, ts.Act{Do: "advuntil", Tid: order[1], Call: "Commit"}, ts.Act{Do: "drain"})
+			} else {
+				sc.Acts = append(sc.Acts, ts.Act{Do: "step", Tid: order[0]}, ts.Act{Do: "step", Tid: order[1]})
+			}
+		}
+		sc.Acts = append(sc.Acts, ts.Act{Do: "drain"})
+		judge(sc, "corpus-shared-client-filters")
+	}
 	n := 30
 	if cfg.Thorough() {
 		n = 1500
@@ -104,7 +132,12 @@ func run(cfg lib.Cfg) error {
 			// segments are the same objects for all of them and logs fetched for
 			// different filters are merged into the same cached blocks
 			sc.Real = true
+			sc.Gen.Created = true
 			kind += "-shared-client"
+			if !shared {
+				// another event from the same transactions: logs of two filters interleave inside a transaction
+				sc.IGs[len(sc.IGs)-1].Shape, sc.IGs[len(sc.IGs)-1].Hdr = "created", true
+			}
 			for k := range sc.IGs {
 				if sc.IGs[k].Shape == "trace" {
 					sc.IGs[k].Shape = "tx"
